@@ -45,10 +45,10 @@ func VerifDecodedTagConfined() { verifTagFlowFrom(false, true) }
 func verifTagFlow(finding bool) { verifTagFlowFrom(finding, false) }
 
 func verifTagFlowFrom(finding, decoded bool) {
-	t := httputil.KseLayout()
+	t := httputil.KseLayout(decoded)
 	fs, err := store.NewSimpleStore(store.SimpleStoreConfig{
-		UploadDir:     t.Roots[0],
-		CacheDir:      t.Roots[1],
+		UploadDir:     t.Dir(0),
+		CacheDir:      t.Dir(1),
 		UploadCleanup: store.CleanupConfig{Disabled: true},
 		CacheCleanup:  store.CleanupConfig{Disabled: true},
 	}, tally.NoopScope)
